@@ -82,6 +82,22 @@ def evalOrder (g : Graph κ ν) : List κ → Env κ ν → Option (Env κ ν)
       | none => none
       | some v => evalOrder g rest (e.set k v)
 
+/-- executable check of `TopoFrom` on the dependency skeleton `(key, deps)` of a graph -/
+def topoFromB (sk : List (κ × List κ)) : List κ → List κ → Bool
+  | _, [] => true
+  | done, k :: rest =>
+    (!done.contains k) &&
+    (match sk.lookup k with
+     | some ds => ds.all (fun d => done.contains d)
+     | none => false) &&
+    topoFromB sk (k :: done) rest
+
+/-- executable check of `IsTopo` -/
+def isTopoB (sk : List (κ × List κ)) (order : List κ) : Bool :=
+  topoFromB sk [] order && sk.all (fun p => order.contains p.1)
+
+def skeleton (g : Graph κ ν) : List (κ × List κ) := g.map (fun p => (p.1, p.2.deps))
+
 /-- `toolz.merge([g, h])`: the later dict wins -/
 def merge (g h : Graph κ ν) : Graph κ ν := g.filter (fun p => decide (p.1 ∉ keys h)) ++ h
 
